@@ -504,6 +504,9 @@ class RegistrationResource(Resource):
 
         self._update_params(request)
         self.reg.links = links
+        # The links are part of what the lookup resources show; update_params
+        # only announces changes of the registration parameters.
+        self.reg._update_cb()
 
         return aiocoap.Message(code=aiocoap.CHANGED)
 
